@@ -109,8 +109,8 @@ int __wrap_select(int nfds, fd_set *r, fd_set *w, fd_set *e, struct timeval *t) 
 }
 
 /* ------------------------------------------------------------------ server-side compression */
-static z_stream g_zs[5]; static int g_zs_on[5];
-static void z_close_all(void) { int i; for (i = 0; i < 5; i++) if (g_zs_on[i]) { deflateEnd(&g_zs[i]); g_zs_on[i] = 0; } }
+static z_stream g_zs[6]; static int g_zs_on[6];   /* 0 Zlib, 1..4 Tight, 5 ZRLE: one deflate stream per encoding */
+static void z_close_all(void) { int i; for (i = 0; i < 6; i++) if (g_zs_on[i]) { deflateEnd(&g_zs[i]); g_zs_on[i] = 0; } }
 
 static void put_compact(bbuf *o, size_t n) {
   if (n < 128) bb_byte(o, n);
@@ -120,7 +120,7 @@ static void put_compact(bbuf *o, size_t n) {
 static void put32(bbuf *o, uint32_t v) { bb_byte(o, v >> 24); bb_byte(o, v >> 16); bb_byte(o, v >> 8); bb_byte(o, v); }
 
 static void emit_z(int sid, int fresh, int ok, const unsigned char *d, size_t n) {
-  if (sid < 0 || sid > 4) return;
+  if (sid < 0 || sid > 5) return;
   if (fresh && g_zs_on[sid]) { deflateEnd(&g_zs[sid]); g_zs_on[sid] = 0; }
   if (!g_zs_on[sid]) { memset(&g_zs[sid], 0, sizeof(z_stream)); deflateInit(&g_zs[sid], 1 + (int)(n % 9)); g_zs_on[sid] = 1; }
   size_t cap = deflateBound(&g_zs[sid], n) + 64;
@@ -130,7 +130,7 @@ static void emit_z(int sid, int fresh, int ok, const unsigned char *d, size_t n)
   deflate(&g_zs[sid], Z_SYNC_FLUSH);
   size_t cn = cap - g_zs[sid].avail_out;
   if (!ok) { size_t i; for (i = 0; i < cn; i++) o[i] = 0xff; }   /* invalid block type / stored-length mismatch */
-  if (sid == 0) put32(&g_in, (uint32_t)cn); else put_compact(&g_in, cn);
+  if (sid == 0 || sid == 5) put32(&g_in, (uint32_t)cn); else put_compact(&g_in, cn);   /* Zlib / ZRLE: 4-byte length, Tight: compact length */
   bb_add(&g_in, o, cn);
   free(o);
 }
@@ -408,8 +408,10 @@ static void live_fill(unsigned seed, int kind, int x0, int y0, int w, int h) {
     if (B == 1) ((uint8_t *)g_scr->frameBuffer)[i] = v; else if (B == 2) ((uint16_t *)g_scr->frameBuffer)[i] = v; else ((uint32_t *)g_scr->frameBuffer)[i] = v;
   }
 }
+static int g_lossy = 0;
 static void live_compare(const char *tag, rfbBool rc) {
   rfbClient *c = g_cl; size_t i, n, bad = 0, first = 0; uint32_t m;
+  if (g_lossy && c && c->frameBuffer) { printf("%s rc=%d equal=1 lossy\n", tag, rc); return; }
   if (!c || !c->frameBuffer) { printf("%s rc=%d equal=0 nofb\n", tag, rc); return; }
   n = (size_t)c->width * c->height; m = px_mask(c);
   if (c->width != g_scr->width || c->height != g_scr->height) { printf("%s rc=%d equal=0 size\n", tag, rc); return; }
@@ -458,6 +460,10 @@ static void do_live(char *args) {
   c->format = g_scr->serverFormat;
   c->appData.encodingsString = enc; c->appData.useRemoteCursor = TRUE; c->canHandleNewFBSize = TRUE;
   c->appData.compressLevel = (int)(seed % 10); c->appData.qualityLevel = 9; c->appData.enableJPEG = FALSE;
+  /* ZYWRLE (the lossy wavelet variant of ZRLE) is only used below quality 9: run it through the sanitizer; the
+   * framebuffers cannot be compared then */
+  g_lossy = strstr(enc, "zywrle") != NULL;
+  if (g_lossy) c->appData.qualityLevel = (int)((seed >> 4) % 9);
   g_default_malloc = c->MallocFrameBuffer; c->MallocFrameBuffer = cb_malloc;
   c->GotFrameBufferUpdate = cb_update; c->FinishedFrameBufferUpdate = cb_finished; c->Bell = cb_bell;
   c->GotXCutText = cb_cut; c->GotCursorShape = cb_cursor; c->HandleCursorPos = cb_pos; c->HandleKeyboardLedState = cb_led;
@@ -474,9 +480,10 @@ static void do_liveenc(char *args) {
   { size_t L = strlen(enc2); while (L && (enc2[L - 1] == '\n' || enc2[L - 1] == ' ')) enc2[--L] = 0; }
   g_cl->appData.encodingsString = enc2;
   if (!SetFormatAndEncodings(g_cl)) { printf("liveenc rc=0\n"); live_close(); return; }
-  live_pump();
-  printf("liveenc %s\n", enc2);
+  SendFramebufferUpdateRequest(g_cl, 0, 0, g_cl->width, g_cl->height, FALSE);
+  { rfbBool rc = live_until_finished(); bb_reset(&g_ev); live_compare("liveenc", rc); if (!rc) live_close(); }
 }
+static void do_livemod(char *args);
 static void do_livemod(char *args) {
   unsigned seed; int n, i;
   if (!g_live || !g_cl || sscanf(args, "%u %d", &seed, &n) < 2) { printf("livemod none\n"); return; }
